@@ -24,6 +24,10 @@ func runsFromSSA(fn *ssa.Function) bool {
 	if strings.HasPrefix(p, modPath) {
 		return true
 	}
+	// generated protobuf getters of the well-known types are nil-safe field reads
+	if p == "google.golang.org/protobuf/types/known/structpb" && strings.HasPrefix(fn.Name(), "Get") {
+		return true
+	}
 	for _, a := range execFromSSA {
 		if p == a {
 			return true
